@@ -519,6 +519,7 @@ func c02(c *Ctx) {
 	// a mutex taken in the receive loop's reach and not released on some path blocks the loop at the next acquisition:
 	// the listener stays up but stops processing frames
 	lockReleaseRule(c, "recv-loop-lock-released", append([]*ssa.Function(nil), fns...), 2, "mutex acquisitions in the receive loop's reach", "the receive loop blocks for ever at the next acquisition")
+	c02SendOnClosed(c, fns)
 	// (c) bounds on frame-derived data
 	taint := frameTaint(p, root, fns)
 	nOb, nProved := 0, 0
@@ -618,4 +619,65 @@ func lenFromFrame(v ssa.Value, taint map[ssa.Value]bool, depth int) bool {
 		}
 	}
 	return false
+}
+
+// c02SendOnClosed: a send on a closed channel panics – also as a case of a select that has a default. The receive loop
+// has no recover, so a channel it sends on (the socket's wake-up channel, the knock queue) must not be one that any code
+// of the listener closes: the send and the close are in different goroutines (the port handler closes, the loop sends),
+// no ordering between them can be shown.
+func c02SendOnClosed(c *Ctx, fns []*ssa.Function) {
+	p := c.P
+	const rule = "no-send-on-closable-channel"
+	chanKeyOf := func(v ssa.Value) string {
+		if ld, ok := v.(*ssa.UnOp); ok && ld.Op == token.MUL {
+			if fa, ok := ld.X.(*ssa.FieldAddr); ok {
+				if n := NamedOf(fa.X.Type()); n != nil {
+					return TypeKey(n) + "." + fieldNameOf(fa)
+				}
+			}
+			if g, ok := ld.X.(*ssa.Global); ok {
+				return "var " + g.Name()
+			}
+		}
+		return ""
+	}
+	closed := map[string]string{}
+	for _, fn := range p.FuncsIn("listener") {
+		for _, call := range Calls(fn) {
+			if bi, ok := call.Common().Value.(*ssa.Builtin); ok && bi.Name() == "close" && len(call.Common().Args) == 1 {
+				if k := chanKeyOf(call.Common().Args[0]); k != "" {
+					closed[k] = p.InstrPos(call)
+				}
+			}
+		}
+	}
+	n := 0
+	for _, fn := range fns {
+		for _, b := range fn.Blocks {
+			for _, in := range b.Instrs {
+				var chans []ssa.Value
+				switch x := in.(type) {
+				case *ssa.Send:
+					chans = append(chans, x.Chan)
+				case *ssa.Select:
+					for _, st := range x.States {
+						if st.Dir == types.SendOnly {
+							chans = append(chans, st.Chan)
+						}
+					}
+				}
+				for _, ch := range chans {
+					k := chanKeyOf(ch)
+					if k == "" {
+						continue
+					}
+					n++
+					at, isClosed := closed[k]
+					c.Check(!isClosed, rule, fmt.Sprintf("%s sends on %s #%d", shortFn(fn), k, n), p.InstrPos(in), "no code of the listener closes this channel",
+						"the unrecovered receive loop sends on "+k+", which is closed at "+at+" (by another goroutine, e.g. the port handler after the peer's FIN): a segment that arrives afterwards makes the send panic with \"send on closed channel\" – a select with a default does not prevent that – and frame processing ends for the whole sensor")
+				}
+			}
+		}
+	}
+	c.Floor(rule, 2, "the socket wake-up and the knock queue")
 }
